@@ -34,7 +34,7 @@ def attr_list(d):
     return ", ".join(parts)
 
 def add(fid, family, flavour, policy=None, limit=None, ttl=None, mem=None, fw=None, result=None, cache_if=False,
-        inval_on=False, versioned=False, tags=(), events=(), deps=(), name=None):
+        inval_on=False, versioned=False, tags=(), events=(), deps=(), name=None, gates=0):
     if family != "meta" and flavour != "thread" and not (tags or events or deps):
         # a declared tag registers the clear callback, which the harness uses to empty store *and* queue between histories
         tags = ("rst",)
@@ -54,9 +54,15 @@ def add(fid, family, flavour, policy=None, limit=None, ttl=None, mem=None, fw=No
         d["inval_on"] = f"io_{fid}"
         code.append(f"fn io_{fid}(key: &String, v: &{rty}) -> bool {{ inval_on_hook({fid}, key, format!(\"{{v:?}}\")) }}")
     body = "body_res" if result else ("body_versioned" if versioned else "body")
+    if gates:
+        code.append(f"#[cache_async({attr_list(d)})]\npub async fn {fn}(k: u32) -> {rty} {{ gated_body({fid}, k, {gates}).await }}")
+        spawn = f"Some(|k| Box::pin({fn}(k)))"
+    else:
+        spawn = "None"
     mac = "cache_async" if flavour == "async" else "cache"
     asy = "async " if flavour == "async" else ""
-    code.append(f"#[{mac}({attr_list(d)})]\npub {asy}fn {fn}(k: u32) -> {rty} {{ {body}({fid}, k) }}")
+    if not gates:
+        code.append(f"#[{mac}({attr_list(d)})]\npub {asy}fn {fn}(k: u32) -> {rty} {{ {body}({fid}, k) }}")
     wrap = f"block_on({fn}(k))" if flavour == "async" else f"{fn}(k)"
     ret = f"Ret::Res({wrap})" if result else f"Ret::Plain({wrap})"
     def opt(x, f=str):
@@ -68,7 +74,7 @@ def add(fid, family, flavour, policy=None, limit=None, ttl=None, mem=None, fw=No
         f'    FnInfo {{ id: {fid}, name: "{name or fn}", fn_name: "{fn}", family: "{family}", flavour: Flavour::{flavour.capitalize()}, policy: {pol}, '
         f'limit: {opt(limit)}, ttl: {opt(ttl)}, mem: {opt(mem)}, fw: {opt(fw, lambda v: repr(float(v)))}, is_result: {str(bool(result)).lower()}, '
         f'has_cache_if: {str(cache_if).lower()}, has_inval_on: {str(inval_on).lower()}, versioned: {str(versioned).lower()}, '
-        f'tags: {sl(tags)}, events: {sl(events)}, deps: {sl(deps)}, call: |k| {ret} }},')
+        f'tags: {sl(tags)}, events: {sl(events)}, deps: {sl(deps)}, call: |k| {ret}, spawn: {spawn}, gates: {gates} }},')
 
 FLAVS = ["global", "thread", "async"]
 fid = 1000
@@ -115,6 +121,14 @@ for fl in FLAVS:
     for pol in (None, "lru"):
         add(fid, "inval_on", fl, policy=pol, limit=None, ttl=2, inval_on=True, versioned=True)
         fid += 1
+# --- gated async bodies (C20): 1-3 harness-controlled await points
+fid = 7000
+for pol in ("fifo", "lru", "lfu"):
+    for lim in (None, 1):
+        for ttl in (None, 2):
+            for ng in (1, 2, 3):
+                add(fid, "gate", "async", policy=pol, limit=lim, ttl=ttl, tags=("t",), gates=ng)
+                fid += 1
 # --- metadata corpus: every assignment of tags/events/dependencies ⊆ {x, y}
 fid = 5000
 SUBS = [(), ("x",), ("y",), ("x", "y")]
@@ -134,6 +148,16 @@ for fl in ("global", "async"):
 # thread-scope drivers (C14)
 for (pol, lim) in [(None, None), ("fifo", 1), ("lru", 1), ("lfu", 1), ("arc", 2), ("random", 1), ("tlru", 2), ("lru", 2)]:
     add(fid, "conc", "thread", policy=pol, limit=lim)
+    fid += 1
+
+# unlimited functions for every policy (C03 concurrent clause: the hit path differs per policy)
+for fl in ("global", "async"):
+    for pol in ("lru", "lfu", "arc", "random", "tlru"):
+        add(fid, "conc", fl, policy=pol, tags=("t",), events=("e",))
+        fid += 1
+# thread scope together with group metadata (documented as ignored for thread scope)
+for (pol, lim, tg, ev, dp) in [("fifo", 2, ("t",), (), ()), ("lru", None, (), ("e",), ()), (None, 1, (), (), ("d",)), ("lfu", 2, ("t",), ("e",), ("d",))]:
+    add(fid, "conc", "thread", policy=pol, limit=lim, tags=tg, events=ev, deps=dp)
     fid += 1
 
 with open(OUT, "w") as f:
